@@ -684,7 +684,10 @@ class MarkdownNormalizer(Renderer):
         self._skip_next_blank_line = False
         lines: list[str] = []
         head, *body = element.children
-        lines.append(self.render(head))
+        # Every table line carries the container prefix (quote marker, list indent); the first
+        # one the first-line prefix.
+        lines.append(f"{self._prefix}{self.render(head)}")
+        self._prefix = self._second_prefix
 
         normalized_delimiters: list[str] = []
         for delimiter in element.delimiters:
@@ -702,9 +705,9 @@ class MarkdownNormalizer(Renderer):
                 normalized_delimiter = "---"
             normalized_delimiters.append(normalized_delimiter)
 
-        lines.append(f"| {' | '.join(normalized_delimiters)} |\n")
+        lines.append(f"{self._prefix}| {' | '.join(normalized_delimiters)} |\n")
         for row in body:
-            lines.append(self.render(row))
+            lines.append(f"{self._prefix}{self.render(row)}")
         return "".join(lines)
 
     def render_table_row(self, element: gfm_elements.TableRow) -> str:
